@@ -76,13 +76,13 @@ extern "C" void h_limits()
     CMutableTransaction m; m.vin.resize(1); m.vout.resize(1);
     // never destroyed (deallocation is outside every claim; a symbolic reference count would make every release explore the disposal path)
     const CTransactionRef& tx = *new CTransactionRef(new CTransaction(std::move(m)));
-    std::vector<CTxMemPoolEntry>& entries = *new std::vector<CTxMemPoolEntry>(); entries.reserve(NTX);
+    static PhantomStore<CTxMemPoolEntry> entries[NTX + 1];           // constructed in place, never moved or destroyed (virtual destructor / TxGraph::Ref unlinking are not the subject)
     for (int i = 0; i < NTX; i++) {
         wt[i] = (int32_t)nondet_u32(); so[i] = nondet_i64(); fee[i] = nondet_i64();
         VASSUME(wt[i] >= 0 && so[i] >= 0 && so[i] <= MAX_BLOCK_SIGOPS_COST && fee[i] >= 0 && fee[i] <= MAX_MONEY / NTX);     // weights/sigops/fees of validated mempool transactions
         chunk_w += wt[i]; chunk_s += so[i]; chunk_f += fee[i];
-        entries.emplace_back(tx, fee[i], /*time=*/0, /*entry_height=*/1, /*entry_sequence=*/0, /*spends_coinbase=*/false, so[i], LockPoints());
-        poke(entries[i].nTxWeight, wt[i]);
+        new ((void*)&entries[i].o) CTxMemPoolEntry(tx, fee[i], /*time=*/0, /*entry_height=*/1, /*entry_sequence=*/0, /*spends_coinbase=*/false, so[i], LockPoints());
+        poke(entries[i].o.nTxWeight, wt[i]);
     }
     VASSUME(chunk_w <= 0x7fffffff);                             // FeeFrac::size is int32: the chunk's size is the sum of its transactions' weights (TxGraph contract)
     const FeePerWeight chunk{chunk_f, (int32_t)chunk_w};
@@ -92,7 +92,7 @@ extern "C" void h_limits()
     VASSERT(fits == ((unsigned __int128)w0 + (uint64_t)chunk_w < maxw && (unsigned __int128)s0 + (uint64_t)chunk_s < (uint64_t)MAX_BLOCK_SIGOPS_COST),
             "chunk admitted <=> weight and sigop totals stay strictly below block_max_weight / 80,000");
     if (fits) {
-        for (int i = 0; i < NTX; i++) ba.AddToBlock(entries[i]);
+        for (int i = 0; i < NTX; i++) ba.AddToBlock(entries[i].o);
         verif_observe(ba.nBlockWeight); verif_observe(ba.nBlockSigOpsCost);
         VASSERT(ba.nBlockWeight == w0 + (uint64_t)chunk_w && ba.nBlockSigOpsCost == s0 + (uint64_t)chunk_s && ba.nFees == fees0 + chunk_f && ba.nBlockTx == n0 + NTX, "AddToBlock bookkeeping is exact");
         VASSERT(ba.nBlockWeight < maxw && maxw <= MAX_BLOCK_WEIGHT && ba.nBlockSigOpsCost < (uint64_t)MAX_BLOCK_SIGOPS_COST, "after an admitted chunk the template is within the configured weight and the 80,000 sigop limit (reserved allowance included)");
